@@ -68,7 +68,10 @@ def run_grad(case, drv, op=None, dom=None, rg=None, tol=None, single=False, name
     viol = None
 
     def v(sig, what):
-        return {'signature': f'grad:{case.get("cfg", {}).get("kind", case["kind"])}:{sig}', 'what': f'{cfg}: {what}'}
+        kind = case.get('cfg', {}).get('kind', case['kind'])
+        if kind == 'wavelet':  # the adjoint of the non-orthogonal families is the known finding of C01
+            kind += ':biorthogonal' if case['cfg'].get('wavelet') in zoo_kernels.WAVELETS_BIORTHO else ':orthogonal'
+        return {'signature': f'grad:{kind}:{sig}', 'what': f'{cfg}: {what}'}
 
     def close(a, b):
         a, b = a.to(torch.complex128), b.to(torch.complex128)
